@@ -340,6 +340,7 @@ def slice_constant(root, spec):
             am = re.search(r'\btypedef\s+([\w ]+?)\s+%s\s*;' % re.escape(val), text) or re.search(r'\busing\s+%s\s*=\s*([\w ]+?)\s*;' % re.escape(val), text)
             if not am: break
             val = am.group(1).strip()
+    if spec.get('expr'): val = spec['expr'].format(val)   # e.g. the enumerator that follows a captured one: '({}) + 1'
     if spec.get('noparen'): return '#define %s %s\n' % (spec['const'], val)
     return '#define %s (%s)\n' % (spec['const'], val)
 
